@@ -219,3 +219,27 @@ def c07_r4(ctx):
                 if D.eq(a_, "method = %s" % v):
                     sel[v] = sorted(fq.at(n) or [])
     ctx.ob(dq, sel == {"q.deletion_docs": [("T", "for_deletion")], "q.docs": [("F", "for_deletion")]}, "for_deletion selects the query's deletion_docs", detail=str(sel))
+
+
+@rule("C07", "R5", "K3", "a writer opens a fresh reader for every lookup it makes on its own behalf",
+      min_instances=3, also=("C18",),
+      clause="reader() and searcher() of every writer class store nothing on the writer: each SegmentReader freezes its deleted-document "
+             "set when it is first asked for postings, so a reader kept across calls would show documents this writer has deleted since "
+             "(update_document/delete_by_term would find and count them again).")
+def c07_r5(ctx):
+    prog = ctx.prog
+    from .c15 import _self_stores
+    base = prog.cls("writing.IndexWriter")
+    n = 0
+    for K in [base] + prog.subclasses(base, strict=True):
+        for m in ("reader", "searcher"):
+            f = K.methods.get(m)
+            if f is None:
+                continue
+            n += 1
+            ctx.saw(f)
+            stores = sorted(set(a for a, _ in _self_stores(f)))
+            ctx.ob(f, not stores, "%s.%s() keeps nothing on the writer" % (K.name, m),
+                   detail="stores self.%s: the reader/searcher is reused by later lookups and misses this writer's own deletions" % ", self.".join(stores) if stores else "")
+    if n < 3:
+        raise AnalysisError("only %d writer reader()/searcher() methods" % n)
